@@ -179,10 +179,9 @@ theorem C04_resetDefault_stable (env : Env) (hna : NoStructArrays env) (S : Stri
     Partial w.r.t. `C04_unknown_ignored_full` in that (a) the known members' bytes are
     characterised by `HeadOk`/`SelfDelimiting` instead of being `encVar` of a well-typed value
     (the C03 round trip per member yields both: Props/C04RT.lean), and (b) the model fuel `decFuel`
-    of either run is assumed to exceed `N + #members` and the rank `rk S ≤ env.length` of the
-    struct (model artefacts: `decFuel` is `(width+3)·(size+2) ≥ 6`, which does not dominate the
-    by-value nesting depth of a schema, which `ResetDefault` descends without consuming input;
-    `C04_rank_small`: no condition for nesting depth ≤ 5). -/
+    of either run is assumed to exceed `N + #members`, where `N` is the fuel from which the
+    members' reads are self-delimiting (Props/C04RT.lean discharges this too).  `ResetDefault`
+    needs no fuel hypothesis: `decFuel` exceeds the rank of every struct (`C04_resetDefault_decFuel`). -/
 theorem C04_unknown_ignored_partial (env : Env) (rk : String → Nat) (hac : EnvAcyclic env rk)
     (N : Nat) (S : String) (fs : List Field)
     (ovs : List Val) (items : List (List WFField × Slot)) (tail : List WFField)
@@ -191,16 +190,19 @@ theorem C04_unknown_ignored_partial (env : Env) (rk : String → Nat) (hac : Env
     (holds : oldsOf items = resetDefault env (decFuel env r) fs ovs)
     (hadm : Admissible 0 items tail) (hsl : ∀ p ∈ items, p.2.HeadOk ∧ p.2.SelfDelimiting env N)
     (hF : N + items.length < decFuel env r) (hF' : N + items.length < decFuel env r')
-    (hL : rk S < decFuel env r) (hL' : rk S < decFuel env r')
     (ht : Terminated t) (ht' : Terminated t')
     (h : r.rest = merged items tail ++ t) (h' : r'.rest = merged (strip items) [] ++ t') :
     (decStruct env S (.struct ovs) r).1 = (decStruct env S (.struct ovs) r').1 :=
   decStruct_unknown_ignored env N S fs ovs items tail r r' t t' hfind hfs holds
-    (resetDefault_stable_acyclic env rk hac S fs hfind ovs _ _ hL' hL) hadm hsl hF hF' ht ht' h h'
+    (resetDefault_decFuel env rk hac S fs hfind ovs r r') hadm hsl hF hF' ht ht' h h'
 
-/-- `hL`, `hL'` hold for every reader when the struct nests at most 5 deep by value (`decFuel ≥ 6`) -/
-theorem C04_rank_small (env : Env) (r : Reader) (k : Nat) (h : k ≤ 5) : k < decFuel env r := by
-  have := decFuel_ge_six env r; omega
+/-- **C04_resetDefault_decFuel**: for an acyclic schema the `ResetDefault` that `ReadFrom` performs
+    on ANY target does not depend on the size of the input (the model fuel `decFuel` always exceeds
+    the rank of the struct, `rk S ≤ env.length < decFuel`) -/
+theorem C04_resetDefault_decFuel (env : Env) (rk : String → Nat) (hac : EnvAcyclic env rk)
+    (S : String) (fs : List Field) (hfind : env.find S = some fs) (ovs : List Val) (r r' : Reader) :
+    resetDefault env (decFuel env r') fs ovs = resetDefault env (decFuel env r) fs ovs :=
+  resetDefault_decFuel env rk hac S fs hfind ovs r r'
 
 /-- **C04_unknown_ignored_enc_partial**: the same with the known members given as `encVar` of the
     members of a value (`encSlots`), compared against `encStruct` of that value: merging unknown
@@ -217,14 +219,13 @@ theorem C04_unknown_ignored_enc_partial (env : Env) (rk : String → Nat) (hac :
     (hsl : ∀ s ∈ encSlots env fs (resetDefault env (decFuel env r) fs ovs) vals,
       s.HeadOk ∧ s.SelfDelimiting env N)
     (hF : N + fs.length < decFuel env r) (hF' : N + fs.length < decFuel env r')
-    (hL : rk S < decFuel env r) (hL' : rk S < decFuel env r')
     (ht : Terminated t) (ht' : Terminated t')
     (h : r.rest = merged
       (gaps.zip (encSlots env fs (resetDefault env (decFuel env r) fs ovs) vals)) tail ++ t)
     (h' : r'.rest = encStruct env S (.struct vals) ++ t') :
     (decStruct env S (.struct ovs) r).1 = (decStruct env S (.struct ovs) r').1 :=
   decStruct_unknown_ignored_enc env N S fs vals ovs gaps tail r r' t t' hfind hlo hlv hlg
-    (resetDefault_stable_acyclic env rk hac S fs hfind ovs _ _ hL' hL) hadm hsl hF hF' ht ht' h h'
+    (resetDefault_decFuel env rk hac S fs hfind ovs r r') hadm hsl hF hF' ht ht' h h'
 
 /-- full strength (stated, not proved here): for every schema, every well-typed value `vals`, every
     target `ovs`, every admissible interleaving with unknown well-formed fields, decoding the
@@ -282,8 +283,8 @@ example :
       = (decStruct C04_exEnv "S" (.struct [.int 0, .str []])
           (Reader.mk0 (merged (strip C04_exItems) []))).1 := by
   have hfind : C04_exEnv.find "S" = some C04_exFs := by simp [C04_exEnv, Env.find]
-  have hf1 : decFuel C04_exEnv (Reader.mk0 (merged C04_exItems C04_exTail)) = 89 + 1 := by decide
-  have hf2 : decFuel C04_exEnv (Reader.mk0 (merged (strip C04_exItems) [])) = 19 + 1 := by decide
+  have hf1 : decFuel C04_exEnv (Reader.mk0 (merged C04_exItems C04_exTail)) = 90 + 1 := by decide
+  have hf2 : decFuel C04_exEnv (Reader.mk0 (merged (strip C04_exItems) [])) = 20 + 1 := by decide
   have hr : ∀ x : Bytes, (Reader.mk0 x).rest = x ++ [] := by intro x; simp [Reader.rest, Reader.mk0]
   have hac : EnvAcyclic C04_exEnv (fun _ => 0) := by
     intro s ifs hs
@@ -295,7 +296,7 @@ example :
       rcases hg with rfl | rfl <;> rcases href with h | ⟨n, h⟩ <;> cases h
     · cases hs
   refine C04_unknown_ignored_partial C04_exEnv (fun _ => 0) hac 1 "S" C04_exFs _ C04_exItems
-    C04_exTail _ _ [] [] hfind rfl ?_ ?_ ?_ ?_ ?_ ?_ ?_ (.inl rfl) (.inl rfl) (hr _) (hr _)
+    C04_exTail _ _ [] [] hfind rfl ?_ ?_ ?_ ?_ ?_ (.inl rfl) (.inl rfl) (hr _) (hr _)
   · rw [hf1]
     simp [C04_exFs, resetDefault_cons, resetDefault_nil_left, resetMember, oldsOf, C04_exItems,
       zeroOf, zeroVal, scalarZero]
@@ -306,8 +307,6 @@ example :
     · exact ⟨.inr ⟨tyBYTE, [Tars.byte 5], by decide, by decide⟩,
         selfDelimiting_i32 _ _ 5 0 rfl rfl (by decide) (by decide) rfl⟩
     · exact ⟨.inl rfl, selfDelimiting_absent _ _ rfl rfl rfl⟩
-  · rw [hf1]; decide
-  · rw [hf2]; decide
   · rw [hf1]; decide
   · rw [hf2]; decide
 
@@ -429,10 +428,7 @@ theorem C04_reuse_struct (env : Env) (S : String) (fs : List Field) (ovs vs : Li
   rw [hrm, hty, absentVal_struct env _ name _ ifs hfind] at this
   refine ⟨_, this, fun j g w hg hw hcase => ?_⟩
   obtain ⟨G, hG⟩ : ∃ G, decFuel env r - 1 = G + 1 := ⟨decFuel env r - 2, by
-    have : 6 ≤ decFuel env r := by
-      unfold decFuel
-      calc 6 = 3 * 2 := rfl
-        _ ≤ (env.width + 3) * (r.data.size + 2) := Nat.mul_le_mul (by omega) (by omega)
+    have : 6 ≤ decFuel env r := decFuel_ge_six env r
     omega⟩
   -- what one application of `ResetDefault` leaves in member `j`, whatever it held
   have hval : ∀ (F : Nat) (x : Val), resetMember env F g x = g.dflt.getD (zeroOf env g.ty) := by
@@ -487,7 +483,7 @@ example : C04_cexPkt = [byte 0x00, byte 0x05] := by decide
 theorem C04_reuse_example :
     (decStruct C04_cexEnv "S" C04_cexOld (Reader.mk0 C04_cexPkt)).1
       = .ok (.struct [.int 5, .str []]) := by
-  have hfuel : decFuel C04_cexEnv (Reader.mk0 C04_cexPkt) = 19 + 1 := by decide
+  have hfuel : decFuel C04_cexEnv (Reader.mk0 C04_cexPkt) = 20 + 1 := by decide
   have hrest : (Reader.mk0 C04_cexPkt).rest = writeInt32 5 0 ++ [] := by decide
   have hfind : C04_cexEnv.find "S" = some C04_cexFs := by simp [C04_cexEnv, Env.find]
   unfold decStruct
@@ -497,13 +493,13 @@ theorem C04_reuse_example :
   have hz2 : zeroOf C04_cexEnv .str = .str [] := by simp [zeroOf, zeroVal, scalarZero]
   rw [hz1, hz2]
   have h0 := C02_rt_int32 (Reader.mk0 C04_cexPkt) 5 0 0 true [] (by decide) (by decide) hrest
-  have hd0 : decVar C04_cexEnv 19 0 true .i32 (.int 0) (Reader.mk0 C04_cexPkt)
+  have hd0 : decVar C04_cexEnv 20 0 true .i32 (.int 0) (Reader.mk0 C04_cexPkt)
       = (.ok (.int 5), (Reader.mk0 C04_cexPkt).adv (writeInt32 5 0).length) := by
     unfold decVar; simp [readScalar, h0, mapRes]
   have hr1 := (Reader.mk0 C04_cexPkt).rest_adv _ _ hrest
-  have hd1 := decVar_absent_opt C04_cexEnv 17 1 .str (.str []) _ (by decide) (.inl hr1)
-  rw [decMembers_cons_ok _ 19 ⟨0, true, .i32, none⟩ _ _ _ _ _ _ hd0,
-    decMembers_cons_ok _ 18 ⟨1, false, .str, none⟩ _ _ _ _ _ _ hd1, decMembers_nil]
+  have hd1 := decVar_absent_opt C04_cexEnv 18 1 .str (.str []) _ (by decide) (.inl hr1)
+  rw [decMembers_cons_ok _ 20 ⟨0, true, .i32, none⟩ _ _ _ _ _ _ hd0,
+    decMembers_cons_ok _ 19 ⟨1, false, .str, none⟩ _ _ _ _ _ _ hd1, decMembers_nil]
   simp [Except.map, absentVal]
 
 /-- non-vacuity of `C04_reuse`: on that packet and reused target all its hypotheses hold for member
@@ -511,30 +507,30 @@ theorem C04_reuse_example :
 example : ∃ vs r', decStruct C04_cexEnv "S" C04_cexOld (Reader.mk0 C04_cexPkt) = (.ok (.struct vs), r') ∧
     After 1 (readerBefore C04_cexEnv "S" C04_cexOld (Reader.mk0 C04_cexPkt) 1).rest ∧
     vs[1]? = some (.str []) := by
-  have hfuel : decFuel C04_cexEnv (Reader.mk0 C04_cexPkt) = 19 + 1 := by decide
+  have hfuel : decFuel C04_cexEnv (Reader.mk0 C04_cexPkt) = 20 + 1 := by decide
   have hrest : (Reader.mk0 C04_cexPkt).rest = writeInt32 5 0 ++ [] := by decide
   have hfind : C04_cexEnv.find "S" = some C04_cexFs := by simp [C04_cexEnv, Env.find]
   have hz1 : zeroOf C04_cexEnv .i32 = .int 0 := by simp [zeroOf, zeroVal, scalarZero]
   have hz2 : zeroOf C04_cexEnv .str = .str [] := by simp [zeroOf, zeroVal, scalarZero]
   have h0 := C02_rt_int32 (Reader.mk0 C04_cexPkt) 5 0 0 true [] (by decide) (by decide) hrest
-  have hd0 : decVar C04_cexEnv 19 0 true .i32 (.int 0) (Reader.mk0 C04_cexPkt)
+  have hd0 : decVar C04_cexEnv 20 0 true .i32 (.int 0) (Reader.mk0 C04_cexPkt)
       = (.ok (.int 5), (Reader.mk0 C04_cexPkt).adv (writeInt32 5 0).length) := by
     unfold decVar; simp [readScalar, h0, mapRes]
   have hr1 := (Reader.mk0 C04_cexPkt).rest_adv _ _ hrest
-  have hd1 := decVar_absent_opt C04_cexEnv 17 1 .str (.str []) _ (by decide) (.inl hr1)
+  have hd1 := decVar_absent_opt C04_cexEnv 18 1 .str (.str []) _ (by decide) (.inl hr1)
   have hdec : decStruct C04_cexEnv "S" C04_cexOld (Reader.mk0 C04_cexPkt)
       = (.ok (.struct [.int 5, .str []]), (Reader.mk0 C04_cexPkt).adv (writeInt32 5 0).length) := by
     unfold decStruct
     simp only [hfind, C04_cexOld, hfuel]
     simp only [C04_cexFs, resetDefault_cons, resetDefault_nil_left, resetMember]
-    rw [hz1, hz2, decMembers_cons_ok _ 19 ⟨0, true, .i32, none⟩ _ _ _ _ _ _ hd0,
-      decMembers_cons_ok _ 18 ⟨1, false, .str, none⟩ _ _ _ _ _ _ hd1, decMembers_nil]
+    rw [hz1, hz2, decMembers_cons_ok _ 20 ⟨0, true, .i32, none⟩ _ _ _ _ _ _ hd0,
+      decMembers_cons_ok _ 19 ⟨1, false, .str, none⟩ _ _ _ _ _ _ hd1, decMembers_nil]
     simp [Except.map, absentVal]
   have hbefore : readerBefore C04_cexEnv "S" C04_cexOld (Reader.mk0 C04_cexPkt) 1
       = (Reader.mk0 C04_cexPkt).adv (writeInt32 5 0).length := by
     simp only [readerBefore, hfind, C04_cexOld, hfuel, readerAt]
     simp only [C04_cexFs, resetDefault_cons, resetDefault_nil_left, resetMember, List.take]
-    rw [hz1, decMembers_cons_ok _ 19 ⟨0, true, .i32, none⟩ _ _ _ _ _ _ hd0, decMembers_nil]
+    rw [hz1, decMembers_cons_ok _ 20 ⟨0, true, .i32, none⟩ _ _ _ _ _ _ hd0, decMembers_nil]
   have haft : After 1 (readerBefore C04_cexEnv "S" C04_cexOld (Reader.mk0 C04_cexPkt) 1).rest := by
     rw [hbefore]; exact .inl hr1
   refine ⟨_, _, hdec, haft, ?_⟩
@@ -563,20 +559,20 @@ theorem C04_asFound_reuse_stale (env : Env) (S : String) (fs : List Field) (ovs 
 theorem C04_asFound_reuse_counterexample :
     (AsFound.decStruct C04_cexEnv "S" C04_cexOld (Reader.mk0 C04_cexPkt)).1
       = .ok (.struct [.int 5, .str C04_cexOldStr]) := by
-  have hfuel : decFuel C04_cexEnv (Reader.mk0 C04_cexPkt) = 19 + 1 := by decide
+  have hfuel : decFuel C04_cexEnv (Reader.mk0 C04_cexPkt) = 20 + 1 := by decide
   have hrest : (Reader.mk0 C04_cexPkt).rest = writeInt32 5 0 ++ [] := by decide
   have hfind : C04_cexEnv.find "S" = some C04_cexFs := by simp [C04_cexEnv, Env.find]
   unfold AsFound.decStruct
   simp only [hfind, C04_cexOld, hfuel]
   simp only [C04_cexFs, asFound_resetDefault_cons, asFound_resetDefault_nil_left, asFoundResetMember]
   have h0 := C02_rt_int32 (Reader.mk0 C04_cexPkt) 5 0 1 true [] (by decide) (by decide) hrest
-  have hd0 : decVar C04_cexEnv 19 0 true .i32 (.int 1) (Reader.mk0 C04_cexPkt)
+  have hd0 : decVar C04_cexEnv 20 0 true .i32 (.int 1) (Reader.mk0 C04_cexPkt)
       = (.ok (.int 5), (Reader.mk0 C04_cexPkt).adv (writeInt32 5 0).length) := by
     unfold decVar; simp [readScalar, h0, mapRes]
   have hr1 := (Reader.mk0 C04_cexPkt).rest_adv _ _ hrest
-  have hd1 := decVar_absent_opt C04_cexEnv 17 1 .str (.str C04_cexOldStr) _ (by decide) (.inl hr1)
-  rw [decMembers_cons_ok _ 19 ⟨0, true, .i32, none⟩ _ _ _ _ _ _ hd0,
-    decMembers_cons_ok _ 18 ⟨1, false, .str, none⟩ _ _ _ _ _ _ hd1, decMembers_nil]
+  have hd1 := decVar_absent_opt C04_cexEnv 18 1 .str (.str C04_cexOldStr) _ (by decide) (.inl hr1)
+  rw [decMembers_cons_ok _ 20 ⟨0, true, .i32, none⟩ _ _ _ _ _ _ hd0,
+    decMembers_cons_ok _ 19 ⟨1, false, .str, none⟩ _ _ _ _ _ _ hd1, decMembers_nil]
   simp [Except.map, absentVal]
 
 end Tars
